@@ -578,6 +578,9 @@ fn gen_script(rng: &mut Rng, tier: Tier) -> Script {
     }
     let trap1 = true;
     let trap2 = rng.below(4) as u8;
+    let interactive = rng.below(4) == 0;
+    // (an interactive shell may trap a signal that was ignored on entry)
+    let trap2 = if interactive && trap2 == 3 { 1 } else { trap2 };
     let ending = *rng.pick(&[0u8, 0, 0, 1, 2]);
     let mut lines = Vec::new();
     let nap1 = if rng.below(3) == 0 { format!("nap {}; ", rng.range(1, 3)) } else { String::new() };
@@ -586,8 +589,18 @@ fn gen_script(rng: &mut Rng, tier: Tier) -> Script {
     // (`mark` returns the `$?` it found, non-zero on entry to an action that
     // runs after the failed command: `|| :` keeps errexit out of the action)
     let guard = if ending == 2 { " || :" } else { "" };
-    lines.push(format!("trap 'mark tb U1{guard}; {nap1}echo u1 >>/work/tlog; mark te U1{last}' USR1"));
+    // (trap2 == 3, every other time: one `trap` command for both signals, the
+    // refused one first - the other one must still get its action)
+    let both = trap2 == 3 && rng.bool();
+    if both {
+        lines.push(format!(
+            "trap 'mark tb U1{guard}; {nap1}echo u1 >>/work/tlog; mark te U1{last}' USR2 USR1 2>/dev/null; echo \"trap=$?\""
+        ));
+    } else {
+        lines.push(format!("trap 'mark tb U1{guard}; {nap1}echo u1 >>/work/tlog; mark te U1{last}' USR1"));
+    }
     match trap2 {
+        3 if both => {}
         1 => lines.push(format!(
             "trap 'mark tb U2{guard}; echo u2 >>/work/tlog; mark te U2{}' USR2",
             if ending == 2 { "" } else { "; rc 9" }
@@ -616,9 +629,6 @@ fn gen_script(rng: &mut Rng, tier: Tier) -> Script {
         *w += 1;
         format!("w{}", *w)
     };
-    let interactive = rng.below(4) == 0;
-    // (an interactive shell may trap a signal that was ignored on entry)
-    let trap2 = if interactive && trap2 == 3 { 1 } else { trap2 };
     let reads = rng.below(3) == 0 || interactive;
     let mut feed: Vec<u32> = Vec::new();
     for i in 0..n {
